@@ -152,11 +152,13 @@ func (n *decoratorNode) Call(s containerStore) (err error) {
 		}()
 	}
 
+	verifTraceEnter(s, "dec", n)
 	results := s.invoker()(reflect.ValueOf(n.dcor), args)
 	if err = n.results.ExtractList(n.s, true /* decorated */, results); err != nil {
 		return err
 	}
 	n.state = decoratorCalled
+	verifTraceCommit("dec", n, n.results, results)
 	return nil
 }
 
@@ -303,6 +305,7 @@ func (s *Scope) Decorate(decorator interface{}, opts ...DecorateOption) error {
 			}
 		}
 	}
+	verifTraceDecorate(s, dn)
 	return nil
 }
 
